@@ -4,4 +4,5 @@ let table = [
   (2, FamRM.run_fam_rm);
   (3, FamMaint.run_fam_maint);
   (4, FamSched.run_fam_sched);
+  (5, FamSensor.run_fam_sensor);
 ]
